@@ -568,6 +568,27 @@ def autoh_scenario(LKm, AHm, sp):
     return dict(fns=fns, solo=solo, codes=[(AHm.autohandler.__code__, "autohandler")], cleanup=lambda: _sh.rmtree(base, ignore_errors=True))
 
 
+def uricache_scenario(LKm, UTm, sp):
+    """two renders through one bounded lookup: /main includes a part by a relative URI (resolved through lookup._uri_cache, an
+    LRU cache), /other includes five parts, whose URIs push entries out of that cache"""
+    import os as _os
+    import shutil as _sh
+    import tempfile as _tf
+    base = _tf.mkdtemp(prefix="c16uri")
+    files = {"main": "m-${who}<%include file='part'/>", "part": "part", "other": "o-${who}" + "".join("<%%include file='i%d'/>" % k for k in range(5))}
+    for k in range(5):
+        files["i%d" % k] = "i%d" % k
+    for k, v in files.items():
+        with open(_os.path.join(base, k), "w") as f:
+            f.write(v)
+    lk = LKm.TemplateLookup([base], collection_size=2)
+    solo = {"T0": lk.get_template("/main").render(who="A"), "T1": lk.get_template("/other").render(who="B")}
+    lk.get_template("/main").render(who="A")            # ('part', '/main') is in the URI cache again
+    fns = {"T0": lambda: lk.get_template("/main").render(who="A"), "T1": lambda: lk.get_template("/other").render(who="B")}
+    codes = [(LKm.TemplateLookup.adjust_uri.__code__, "adjust_uri"), (UTm.LRUCache.setdefault.__code__, "LRUCache.setdefault")]
+    return dict(fns=fns, solo=solo, codes=codes, cleanup=lambda: _sh.rmtree(base, ignore_errors=True))
+
+
 def _run_scenario(p, sc_fn, name):
     LK.os, LK.Template, LK.threading = ORIG["os"], ORIG["Template"], ORIG["threading"]
     UT.timeit, UT.operator = ORIG["timeit"], ORIG["operator"]
@@ -593,6 +614,12 @@ def _run_scenario(p, sc_fn, name):
 def h_deco(p):
     TPm, RTm = common.mako("template", "runtime")
     return _run_scenario(p, lambda sp: deco_scenario(TPm, RTm, sp), "decorated-def")
+
+
+def h_uricache(p):
+    import mako.lookup as RLK
+    import mako.util as RUT
+    return _run_scenario(p, lambda sp: uricache_scenario(RLK, RUT, sp), "uri-cache-bounded-lookup")
 
 
 def h_autoh(p):
@@ -779,14 +806,14 @@ sys.exit(1 if bad else 0)
 """.replace("__CASE__", repr(i))
         return (c["kind"], body, ("beaker", tuple(i["schedule"])))
 
-    if i.get("scenario") in ("decorated-def", "autohandler-bounded-lookup"):
+    if i.get("scenario") in ("decorated-def", "autohandler-bounded-lookup", "uri-cache-bounded-lookup"):
         body = """
 # two real threads; a line tracer in mako's own functions and the scheduling points of the templates hand the baton over exactly
 # as in the schedule found
 import threading, time
 sys.path.insert(0, "/verif")
 CASE = __CASE__
-import mako.template as TPm, mako.runtime as RTm, mako.lookup as LKm, mako.ext.autohandler as AHm
+import mako.template as TPm, mako.runtime as RTm, mako.lookup as LKm, mako.ext.autohandler as AHm, mako.util as UTm
 from props import C16
 order = [x.split(":", 1)[0] for x in CASE["schedule"]]
 st = {"k": 0, "diverged": False, "done": set()}
@@ -808,7 +835,8 @@ def arrive(name):
     wait_turn(name)
 def sp():
     arrive(threading.current_thread().name); return ""
-sc = C16.deco_scenario(TPm, RTm, sp) if CASE["scenario"] == "decorated-def" else C16.autoh_scenario(LKm, AHm, sp)
+sc = {"decorated-def": lambda: C16.deco_scenario(TPm, RTm, sp), "autohandler-bounded-lookup": lambda: C16.autoh_scenario(LKm, AHm, sp),
+      "uri-cache-bounded-lookup": lambda: C16.uricache_scenario(LKm, UTm, sp)}[CASE["scenario"]]()
 codes = dict(sc["codes"])
 def tracer_for(name):
     def tracer(frame, event, arg):
@@ -1067,6 +1095,8 @@ def run(check, tier):
                  "scheduling points inside the templates, at most 3 preemptions", dict(points="sp() calls in body, defs, call bodies, includes, base template"), ("asserted",)))
     jobs.append(("C16-deco", h_deco, on_render2, "two concurrent renders of a Template with a decorated top-level def: every line of runtime._decorate_toplevel "
                  "and its closures, the user decorator and the def body are scheduling points, at most 2 preemptions", dict(preemption_bound=2), ("asserted",)))
+    jobs.append(("C16-uricache", h_uricache, on_render2, "two concurrent renders through a bounded lookup whose URI cache (an LRU cache) the other render evicts from: "
+                 "every line of TemplateLookup.adjust_uri and LRUCache.setdefault is a scheduling point, at most 2 preemptions", dict(preemption_bound=2, collection_size=2), ("asserted",)))
     jobs.append(("C16-autoh", h_autoh, on_render2, "two concurrent renders inheriting through mako.ext.autohandler on a bounded lookup without filesystem checks "
                  "(memo in lookup._uri_cache, an LRU cache other renders evict from): every line of autohandler() is a scheduling point, at most 2 preemptions",
                  dict(preemption_bound=2, collection_size=2), ("asserted",)))
